@@ -8,6 +8,7 @@ import Ladim.Model.Forcing
 import Ladim.Model.Analytical
 import Ladim.Model.Release
 import Ladim.Driver.RunOp
+import Ladim.Model.Validate
 /-
 Line-protocol driver: one JSON request per input line, one JSON response per output line.
 It only *runs* the executable model definitions of `Ladim.Model.*`; it contains no logic of
@@ -450,11 +451,40 @@ def opRelease (j : Json) : R Json := do
     pure (Json.mkObj [("steps", listJ intJ r.steps), ("total", natJ r.total),
       ("released", listJ (fun (p : Int × List RRow) => Json.arr #[intJ p.1, listJ rrowJ p.2]) (r.run first n))])
 
+/-! ### C20: start-up refusals -/
+
+def stageName : Stage → String
+  | .configure => "configure" | .time => "time" | .grid => "grid" | .forcing => "forcing"
+  | .release => "release" | .output => "output"
+
+def opValidate (j : Json) : R Json := do
+  let b (k : String) : R Bool := do getBool (← fld j k)
+  let rel ← (do
+    let rj ← fld j "release"
+    match ← (← fld rj "kind").getStr? with
+    | "none" => pure RelFile.none
+    | "missing" => pure RelFile.missing
+    | "unreadable" => pure RelFile.unreadable
+    | _ => do
+      let rows ← getList getRRow (← fld rj "rows")
+      pure (RelFile.table rows (← getBool (← fld rj "has_position"))))
+  let s : Setup := {
+    configExists := ← b "config_exists", versionOK := ← b "version_ok", hasTime := ← b "has_time",
+    hasTracker := ← b "has_tracker", hasRelease := ← b "has_release", hasOutput := ← b "has_output",
+    hasForcing := ← b "has_forcing", gridHasModuleAndFile := ← b "grid_has_module_and_file",
+    start := ← getOptInt j "start", stop := ← getOptInt j "stop", dt := ← getInt (← fld j "dt"), rev := ← b "rev",
+    gridFileExists := ← b "grid_file_exists", imax0 := ← getInt (← fld j "imax0"), jmax0 := ← getInt (← fld j "jmax0"),
+    subgrid := ← getSub j, forcingFiles := ← getList (getList getInt) (← fld j "forcing_files"),
+    release := rel, continuous := ← b "continuous", freq := ← getInt (← fld j "freq") }
+  match validate s with
+  | .ok () => pure (Json.mkObj [("ok", .bool true)])
+  | .error (e, st) => pure (Json.mkObj [("error", .str e.toString), ("stage", .str (stageName st))])
+
 def handlers : List (String × (Json → R Json)) :=
   [("tk", opTk), ("period", opPeriod), ("state", opState), ("outrun", opOutRun), ("genname", opGenName),
    ("forcing", opForcing), ("z2s", opZ2s), ("sdepth", opSdepth), ("sstretch", opSstretch),
    ("sample", opSample), ("grid", opGrid), ("sample2d", opSample2D), ("bilininv", opBilinInv),
-   ("tracker", opTracker), ("roms_sample", opRomsSample), ("diffdisp", opDiffDisp), ("analytical", opAnalytical), ("release", opRelease), ("run", opRun)]
+   ("tracker", opTracker), ("roms_sample", opRomsSample), ("diffdisp", opDiffDisp), ("analytical", opAnalytical), ("release", opRelease), ("run", opRun), ("validate", opValidate)]
 
 def handle (line : String) : String :=
   match Json.parse line with
